@@ -14,6 +14,108 @@ def some(v):
     return ("some", v)
 
 
+def _parse_pattern(text):
+    """pattern text (engine.rulekit.hir.pat_desc) -> tree: ("or", [..]) ("wild",) ("bind", name) ("lit", v) ("tuple", [..])
+    ("ctor", path, [sub..]); None when the text is outside this grammar"""
+    pos = [0]
+    s = text
+
+    def ws():
+        while pos[0] < len(s) and s[pos[0]] == " ":
+            pos[0] += 1
+
+    def alt():
+        items = [single()]
+        ws()
+        while pos[0] < len(s) and s[pos[0]] == "|":
+            pos[0] += 1
+            items.append(single())
+            ws()
+        return items[0] if len(items) == 1 else ("or", items)
+
+    def seq(close):
+        out = []
+        ws()
+        if pos[0] < len(s) and s[pos[0]] == close:
+            pos[0] += 1
+            return out
+        while True:
+            out.append(alt())
+            ws()
+            if pos[0] >= len(s):
+                raise ValueError
+            ch = s[pos[0]]
+            pos[0] += 1
+            if ch == close:
+                return out
+            if ch != ",":
+                raise ValueError
+
+    def single():
+        ws()
+        if pos[0] >= len(s):
+            raise ValueError
+        ch = s[pos[0]]
+        if ch == "&":
+            pos[0] += 1
+            return single()
+        if ch == "(":
+            pos[0] += 1
+            return ("tuple", seq(")"))
+        if ch in "'\"":
+            q = ch
+            j = pos[0] + 1
+            while j < len(s) and s[j] != q:
+                j += 2 if s[j] == "\\" else 1
+            lit = s[pos[0] + 1:j]
+            pos[0] = j + 1
+            return ("lit", lit)
+        j = pos[0]
+        while j < len(s) and (s[j].isalnum() or s[j] in "_:-."):
+            j += 1
+        word = s[pos[0]:j]
+        if not word:
+            raise ValueError
+        pos[0] = j
+        ws()
+        if pos[0] < len(s) and s[pos[0]] == "(":
+            pos[0] += 1
+            return ("ctor", word, seq(")"))
+        if pos[0] < len(s) and s[pos[0]] == "{":
+            raise ValueError
+        if word == "_":
+            return ("wild",)
+        if word in ("true", "false"):
+            return ("lit", word == "true")
+        if word.lstrip("-").isdigit():
+            return ("lit", int(word))
+        if "::" in word or word[:1].isupper():
+            return ("ctor", word, [])
+        return ("bind", word)
+    try:
+        t = alt()
+        ws()
+        return t if pos[0] == len(s) else None
+    except (ValueError, IndexError):
+        return None
+
+
+def _nested(t):
+    """does the pattern look inside a constructor's payload (beyond a binding / wildcard)?"""
+    if t[0] == "or":
+        return any(_nested(x) for x in t[1])
+    if t[0] == "tuple":
+        return any(x[0] not in ("wild", "bind", "lit") for x in t[1])
+    if t[0] == "ctor":
+        return any(x[0] not in ("wild", "bind") for x in t[2])
+    return False
+
+
+def _is_variant_path(path):
+    segs = str(path).split("::")
+    return len(segs) >= 2 and segs[-1][:1].isupper() and segs[-2][:1].isupper() and not segs[-1].isupper()
+
+
 class Node:
     """An abstract XML element: tag + attribute map (string -> str|None) + parent."""
 
@@ -46,6 +148,8 @@ class Evaluator:
             name = n[1].rsplit("::", 1)[-1]
             if name == "None":
                 return NONE
+            if _is_variant_path(n[1]):
+                return ("variant", n[1])       # a unit variant of an enum
             raise Undecided(f"constant {n[1]}")
         if k == "not":
             return not self._bool(self.ev(n[1]))
@@ -71,13 +175,20 @@ class Evaluator:
             return self._matches(n[1], v)
         if k == "payload":
             v = self.ev(n[2])
-            if isinstance(v, tuple) and v and v[0] in ("some", "ok") and n[1] in ("Some", "Ok"):
+            if isinstance(v, tuple) and v and v[0] in ("some", "ok", "err") and n[1] in ("Some", "Ok", "Err") and v[0] == n[1].lower():
                 return v[1]
+            if isinstance(v, tuple) and v and v[0] == "variant" and len(v) > 2 and str(v[1]).rsplit("::", 1)[-1] == str(n[1]).rsplit("::", 1)[-1]:
+                return v[2][0] if len(v[2]) == 1 else ("tuple", tuple(v[2]))
             raise Undecided(f"payload {n[1]} of {v!r}")
         if k == "map":
             v = self.ev(n[1])
             if v is NONE:
                 return NONE
+            if isinstance(v, tuple) and v[0] == "err":
+                return v
+            if isinstance(v, tuple) and v[0] == "ok":
+                r = self.ev(n[2])
+                return r if isinstance(r, tuple) and r and r[0] in ("ok", "err") else ("ok", r)
             if isinstance(v, tuple) and v[0] == "some":
                 r = self.ev(n[2])
                 # and_then returns the closure's Option unchanged; map wraps. The closure bodies used here return Options
@@ -123,6 +234,51 @@ class Evaluator:
         pat = pat.strip()
         if pat in ("_",):
             return True
+        st = _parse_pattern(pat)
+        if st is not None and _nested(st):
+            return self._matches_tree(st, v)
+        return self._matches_flat(pat, v)
+
+    def _matches_tree(self, t, v):
+        """a pattern with sub-patterns (`Ok(MaxOccurs::Count(n))`) against a value built from ok / some / err / variant / tuple"""
+        kind = t[0]
+        if kind == "or":
+            return any(self._matches_tree(x, v) for x in t[1])
+        if kind == "wild" or kind == "bind":
+            return True
+        if kind == "lit":
+            return v == t[1]
+        if kind == "tuple":
+            if isinstance(v, tuple) and v and v[0] == "tuple" and len(v[1]) == len(t[1]):
+                return all(self._matches_tree(x, y) for x, y in zip(t[1], v[1]))
+            raise Undecided(f"tuple pattern on {v!r}")
+        if kind == "ctor":
+            head, subs = t[1], t[2]
+            short = head.rsplit("::", 1)[-1]
+            if short in ("Some", "Ok", "Err"):
+                tag = short.lower()
+                if v is NONE:
+                    return False
+                if isinstance(v, tuple) and v and v[0] in ("some", "ok", "err"):
+                    return v[0] == tag and (not subs or self._matches_tree(subs[0], v[1]))
+                raise Undecided(f"pattern {short}(..) on {v!r}")
+            if short == "None":
+                if v is NONE:
+                    return True
+                if isinstance(v, tuple) and v and v[0] == "some":
+                    return False
+                raise Undecided(f"pattern None on {v!r}")
+            if isinstance(v, tuple) and v and v[0] == "variant":
+                if str(v[1]).rsplit("::", 1)[-1] != short:
+                    return False
+                payload = v[2] if len(v) > 2 else ()
+                if subs and len(subs) != len(payload):
+                    raise Undecided(f"pattern {head} with {len(subs)} sub-patterns on {v!r}")
+                return all(self._matches_tree(x, y) for x, y in zip(subs, payload))
+            raise Undecided(f"pattern {head} on {v!r}")
+        raise Undecided(f"pattern {t!r}")
+
+    def _matches_flat(self, pat, v):
         if isinstance(v, tuple) and v and v[0] == "variant":
             # an enum value known by its variant: the pattern names a variant (path, possibly with sub-patterns) or binds
             head = pat.split("(")[0].split("{")[0].strip()
@@ -155,10 +311,19 @@ class Evaluator:
         path = n[1] if isinstance(n[1], str) else "?"
         short = path.rsplit("::", 1)[-1]
         args = n[2]
+        if path.startswith("struct:"):
+            return {a[1]: self.ev(a[2]) for a in args if isinstance(a, tuple) and a[0] == "field_init"}
         if short == "Some" and len(args) == 1:
             return some(self.ev(args[0]))
         if short == "Ok" and len(args) == 1:
             return ("ok", self.ev(args[0]))
+        if short == "Err" and len(args) == 1:
+            try:
+                return ("err", self.ev(args[0]))
+            except Undecided:
+                return ("err", "?")
+        if _is_variant_path(path) and short not in ("Some", "Ok", "Err"):
+            return ("variant", path, tuple(self.ev(a) for a in args))      # a tuple variant built from its payload
         if path.endswith("Node::<'a, 'input>::attribute") or short == "attribute":
             node = self.ev(args[0])
             name = self.ev(args[1])
